@@ -67,6 +67,7 @@ class SMMapSet(
     def rate(self, by: float) -> SMMapSet:
         """Changes the rate of the map"""
         sms = super(SMMapSet, self).rate(by=by)
+        sms.offset /= by
         sms.sample_start /= by
         sms.sample_length /= by
 
